@@ -43,6 +43,12 @@ pub struct C14 {
     pub r_use_ctx: bool,
     pub r_src: Vec<Step>,
     pub r_fatal: bool,
+    /// index of the write / read call before which set_max_len is applied (earlier calls see the default)
+    pub w_knob_at: u32,
+    pub r_knob_at: u32,
+    /// into_parts() + with_buffer() round trip before this write / read call (at a frame boundary)
+    pub w_rewrap_at: Option<u32>,
+    pub r_rewrap_at: Option<u32>,
 }
 
 const HOSTILE_MIN: u32 = 600 * 1024;
@@ -112,12 +118,14 @@ fn writer_phase(s: &C14, obs: &Rc<RefCell<Obs>>) -> Result<Written, Violation> {
         })
         .collect();
     let max_payload = payloads.iter().flatten().map(|p| p.len()).max().unwrap_or(0);
-    let max_len: usize = match s.w_max_len_mode {
+    let knob_len: usize = match s.w_max_len_mode {
         1 => max_payload,
         2 => max_payload.saturating_sub(1),
         3 => 8,
         _ => 512 * 1024,
     };
+    let knob_at = if s.w_max_len_mode == 0 { 0 } else { s.w_knob_at as usize };
+    let max_len_for = |idx: usize| if idx >= knob_at { knob_len } else { 512 * 1024 };
     let n = s.items.len() as u64;
     let total: u64 = payloads.iter().flatten().map(|p| p.len() as u64 + 4).sum();
     // a benign write_all takes one call per frame; scripted short writes at most one extra call per lane step
@@ -127,10 +135,12 @@ fn writer_phase(s: &C14, obs: &Rc<RefCell<Obs>>) -> Result<Written, Violation> {
     {
         let mut layout = Layout::default();
         let mut off = 0;
-        for p in payloads.iter().flatten() {
-            if p.len() <= max_len {
-                layout.push(off, p.len());
-                off += 4 + p.len();
+        for (i, p) in payloads.iter().enumerate() {
+            if let Some(p) = p {
+                if p.len() <= max_len_for(i) {
+                    layout.push(off, p.len());
+                    off += 4 + p.len();
+                }
             }
         }
         core.borrow_mut().layout = layout;
@@ -139,14 +149,26 @@ fn writer_phase(s: &C14, obs: &Rc<RefCell<Obs>>) -> Result<Written, Violation> {
     if s.w_init_buf > 0 {
         obs.borrow_mut().fault(fk::garbage_buffer);
     }
-    if s.w_max_len_mode != 0 {
-        writer.set_max_len(max_len as u32);
-        obs.borrow_mut().fault(fk::max_len_knob);
-    }
     // `stream` = what the reader will see: sink content with raw frames spliced in at frame boundaries
     let mut stream: Vec<u8> = Vec::new();
     let mut broken = false;
     for (idx, it) in s.items.iter().enumerate() {
+        if s.w_rewrap_at == Some(idx as u32) {
+            let (sink, buf) = writer.into_parts();
+            writer = Writer::with_buffer(sink, buf);
+            if s.w_max_len_mode != 0 && idx > knob_at {
+                writer.set_max_len(knob_len as u32);
+            }
+            obs.borrow_mut().probe(pb::rewrap_at_boundary);
+        }
+        if s.w_max_len_mode != 0 && idx == knob_at {
+            writer.set_max_len(knob_len as u32);
+            obs.borrow_mut().fault(fk::max_len_knob);
+            if idx > 0 {
+                obs.borrow_mut().probe(pb::max_len_changed_mid_run);
+            }
+        }
+        let max_len = max_len_for(idx);
         let before = core.borrow().data.len();
         let at = format!("write #{idx}");
         obs.borrow_mut().event(ev::ISSUE, idx as u64);
@@ -303,12 +325,14 @@ impl<'a> FamVisitor for RVisit<'a> {
             }
         }
         let largest_ok = frames.iter().filter(|f| f.2 && (f.1 as u32) < HOSTILE_MIN).map(|f| f.1).max().unwrap_or(0);
-        let max_len: usize = match s.r_max_len_mode {
+        let knob_len: usize = match s.r_max_len_mode {
             1 => largest_ok,
             2 => largest_ok.saturating_sub(1),
             3 => 16,
             _ => 512 * 1024,
         };
+        let knob_at = if s.r_max_len_mode == 0 { 0 } else { s.r_knob_at as usize };
+        let max_len_for = |idx: usize| if idx >= knob_at { knob_len } else { 512 * 1024 };
         let mut expected: Vec<Exp> = Vec::new();
         let mut layout = Layout::default();
         {
@@ -325,6 +349,7 @@ impl<'a> FamVisitor for RVisit<'a> {
                 }
                 let d = u32::from_be_bytes([stream[pos], stream[pos + 1], stream[pos + 2], stream[pos + 3]]) as usize;
                 layout.push(pos, d);
+                let max_len = max_len_for(expected.len());
                 if d > max_len {
                     expected.push(Exp::InvalidLen);
                     break;
@@ -369,15 +394,29 @@ impl<'a> FamVisitor for RVisit<'a> {
         if s.r_init_buf > 0 {
             obs.borrow_mut().fault(fk::garbage_buffer);
         }
-        if s.r_max_len_mode != 0 {
-            reader.set_max_len(max_len as u32);
-            obs.borrow_mut().fault(fk::max_len_knob);
-        }
-        let base_bound = (2 * max_len).max(2 * init_cap).max(64);
-
         let mut i = 0usize;
         let mut last_len: Option<usize> = None;
         loop {
+            if s.r_rewrap_at == Some(i as u32) {
+                // every completed read call leaves the reader at a frame boundary
+                let (src, buf) = reader.into_parts();
+                reader = Reader::with_buffer(src, buf);
+                if s.r_max_len_mode != 0 && i > knob_at {
+                    reader.set_max_len(knob_len as u32);
+                }
+                obs.borrow_mut().probe(pb::rewrap_at_boundary);
+            }
+            if s.r_max_len_mode != 0 && i == knob_at {
+                reader.set_max_len(knob_len as u32);
+                obs.borrow_mut().fault(fk::max_len_knob);
+                if i > 0 {
+                    obs.borrow_mut().probe(pb::max_len_changed_mid_run);
+                }
+            }
+            let max_len = max_len_for(i);
+            // the buffer may have grown under an earlier, larger max_len: bound by the largest limit seen so far
+            let seen_max = if knob_at > 0 && s.r_max_len_mode != 0 { (512 * 1024usize).max(knob_len) } else { max_len };
+            let base_bound = (2 * seen_max).max(2 * init_cap).max(64);
             let at = format!("read #{i}");
             obs.borrow_mut().event(ev::ISSUE, i as u64);
             let calls_before = core.borrow().calls;
@@ -517,6 +556,10 @@ impl Scenario for C14 {
             .set("r_use_ctx", self.r_use_ctx)
             .set("r_src", lane_to_json(&self.r_src))
             .set("r_fatal", self.r_fatal)
+            .set("w_knob_at", self.w_knob_at)
+            .set("r_knob_at", self.r_knob_at)
+            .set("w_rewrap_at", self.w_rewrap_at)
+            .set("r_rewrap_at", self.r_rewrap_at)
     }
     fn from_json(j: &Json) -> Result<Self, String> {
         let u = |k: &str| j.get(k).and_then(|c| c.as_u64()).unwrap_or(0);
@@ -535,6 +578,10 @@ impl Scenario for C14 {
             r_use_ctx: b("r_use_ctx"),
             r_src: lane_from_json(j.get("r_src"))?,
             r_fatal: b("r_fatal"),
+            w_knob_at: u("w_knob_at") as u32,
+            r_knob_at: u("r_knob_at") as u32,
+            w_rewrap_at: j.get("w_rewrap_at").and_then(|c| c.as_u64()).map(|c| c as u32),
+            r_rewrap_at: j.get("r_rewrap_at").and_then(|c| c.as_u64()).map(|c| c as u32),
         })
     }
     fn run(&self, obs: &mut Obs) -> Result<(), Violation> {
@@ -603,6 +650,10 @@ impl Scenario for C14 {
         reset!(r_use_ctx, false);
         reset!(w_fatal, false);
         reset!(r_fatal, false);
+        reset!(w_knob_at, 0);
+        reset!(r_knob_at, 0);
+        reset!(w_rewrap_at, None);
+        reset!(r_rewrap_at, None);
         if self.family != Ty::Str && self.family != Ty::U64 {
             for t in [Ty::U64, Ty::Str] {
                 let items: Vec<WKind> = self
@@ -637,6 +688,10 @@ fn base(family: Ty, items: Vec<WKind>) -> C14 {
         r_use_ctx: false,
         r_src: vec![],
         r_fatal: false,
+        w_knob_at: 0,
+        r_knob_at: 0,
+        w_rewrap_at: None,
+        r_rewrap_at: None,
     }
 }
 
@@ -805,7 +860,7 @@ impl Property for P14 {
 
     fn generate(r: &mut Rng, tier: Tier) -> C14 {
         let family = *r.pick(IO_TYS);
-        let big = tier == Tier::Thorough && r.chance(1, 40);
+        let big = r.chance(1, if tier == Tier::Thorough { 40 } else { 400 });
         let nitems = if big { r.range(1, 2) } else { 1 + r.below(8) } as usize;
         let profile = r.below(4);
         let en_poison = r.chance(1, 3);
@@ -901,6 +956,10 @@ impl Property for P14 {
             r_use_ctx: r.chance(1, 8),
             r_src,
             r_fatal,
+            w_knob_at: if r.chance(1, 4) { r.below(nitems as u64) as u32 } else { 0 },
+            r_knob_at: if r.chance(1, 4) { r.below(nitems as u64) as u32 } else { 0 },
+            w_rewrap_at: if r.chance(1, 6) { Some(r.below(nitems as u64) as u32) } else { None },
+            r_rewrap_at: if r.chance(1, 6) { Some(r.below(nitems as u64 + 1) as u32) } else { None },
         }
     }
 
